@@ -110,6 +110,36 @@ Proof.
   destruct Hin as [<-|Hin]; [now apply let_through_is_never_skipped|now apply IH].
 Qed.
 
+(* the headers: until the first empty line nothing is looked at; behind it, everything *)
+Lemma body_ok_false_split : forall ls, body_ok false ls = true ->
+  (forall l, In l ls -> l <> []) \/ exists pre post, ls = pre ++ [] :: post /\ (forall l, In l pre -> l <> []) /\ body_ok true post = true.
+Proof.
+  induction ls as [|l r IH]; intros H; [left; intros l []|]. cbn [body_ok] in H. destruct l as [|c l'].
+  - right. exists [], r. repeat split; [intros l []|exact H].
+  - destruct (IH H) as [N|(pre&post&E&N&B)].
+    + left. intros l [<-|Hin]; [discriminate|now apply N].
+    + right. exists ((c :: l') :: pre), post. subst r. repeat split; [|exact B].
+      intros l [<-|Hin]; [discriminate|now apply N].
+Qed.
+(* the whole check: in an armor that is let through, no line behind the headers of the last signature armor is one
+   the armor reader skips *)
+Theorem armor_ok_no_skipped_line armored t : armor_ok armored = true -> from_last begin_marker armored = Some t ->
+  forall pre post, map trim_cr (split nl t) = pre ++ [] :: post -> (forall l, In l pre -> l <> []) ->
+  forall l, In l post -> xline l <> Skipped.
+Proof.
+  unfold armor_ok. intros H F. rewrite F in H. intros pre post E N l Hin.
+  destruct (body_ok_false_split _ H) as [NE|(pre'&post'&E'&N'&B)].
+  - exfalso. apply (NE []); [|reflexivity]. rewrite E. apply in_or_app. right. now left.
+  - (* the first empty line is where both splits cut *)
+    assert (P : forall (a b c d : list str), a ++ [] :: b = c ++ [] :: d -> (forall l, In l a -> l <> []) -> (forall l, In l c -> l <> []) -> b = d).
+    { induction a as [|x a IHa]; intros b c d Eq Na Nc.
+      - destruct c as [|y c]; [now inversion Eq|]. inversion Eq; subst. exfalso. apply (Nc []); [now left|reflexivity].
+      - destruct c as [|y c].
+        + inversion Eq; subst. exfalso. apply (Na []); [now left|reflexivity].
+        + inversion Eq; subst. apply (IHa b c d); auto; intros l0 Hl; [apply Na|apply Nc]; now right. }
+    rewrite E in E'. rewrite (P pre post pre' post' E' N N') in Hin. exact (body_ok_lines post' B l Hin).
+Qed.
+
 (* ---- the line the library writes: CRC-24 (RFC 4880, 6.1) and base64 of its three bytes ---- *)
 Definition crc24_init : N := 11994318.        (* 0xB704CE *)
 Definition crc24_poly : N := 25578747.        (* 0x1864CFB *)
@@ -164,4 +194,5 @@ Proof. vm_compute. repeat split. Qed.
 (* RFC 4880 has no test vector for the CRC; the empty input gives the initial value *)
 Example crc24_empty : crc24 [] = crc24_init. Proof. reflexivity. Qed.
 Print Assumptions let_through_is_never_skipped.
+Print Assumptions armor_ok_no_skipped_line.
 Print Assumptions written_checksum_line_is_let_through.
